@@ -156,6 +156,7 @@ void ascon128a_masked_aead_encrypt
     /* Encrypt the plaintext to create the ciphertext */
     partial = ascon_aead_encrypt_16(&state_x1, c, m, mlen, 4, 0);
     ascon_pad(&state_x1, partial);
+    ascon_release(&state_x1);
 
     /* Convert the state back into key masked form and finalize */
     ascon128a_masked_aead_finalize
@@ -183,6 +184,7 @@ void ascon128a_masked_aead_encrypt
 
     /* Clean up */
 #if ASCON_MASKED_DATA_SHARES == 1
+    ascon_acquire(&state_x1);
     ascon_free(&state_x1);
 #endif
     ascon_masked_state_free(&state);
@@ -232,6 +234,7 @@ int ascon128a_masked_aead_decrypt
     /* Decrypt the ciphertext to create the plaintext */
     partial = ascon_aead_decrypt_16(&state_x1, m, c, *mlen, 4, 0);
     ascon_pad(&state_x1, partial);
+    ascon_release(&state_x1);
 
     /* Convert the state back into key masked form and finalize */
     ascon128a_masked_aead_finalize(&state, &state_x1, &trng, preserve, k, tag);
@@ -261,6 +264,7 @@ int ascon128a_masked_aead_decrypt
 
     /* Clean up */
 #if ASCON_MASKED_DATA_SHARES == 1
+    ascon_acquire(&state_x1);
     ascon_free(&state_x1);
 #endif
     ascon_masked_state_free(&state);
